@@ -141,14 +141,27 @@ Definition nk_eqb (a b : nodekey) : bool :=
     else false
   else false.
 
-Record memo := mkMemo { m_win : list (nat * list smsg); m_node : list nodekey }.
+(** the remembered nodes are kept per window (a lookup scans one window's nodes) *)
+Record memo := mkMemo { m_win : list (nat * list smsg); m_node : list (nat * list nodekey) }.
 
 Definition memo0 : memo := mkMemo [] [].
 
 Definition in_memo (i : nat) (q : list smsg) (mm : memo) : bool :=
   existsb (fun x => if Nat.eqb (fst x) i then smsgs_eqb (snd x) q else false) (m_win mm).
 Definition add_win (i : nat) (q : list smsg) (mm : memo) : memo := mkMemo ((i, q) :: m_win mm) (m_node mm).
-Definition add_node (k : nodekey) (mm : memo) : memo := mkMemo (m_win mm) (k :: m_node mm).
+
+Fixpoint bucket (i : nat) (l : list (nat * list nodekey)) : list nodekey :=
+  match l with
+  | [] => []
+  | (j, ks) :: r => if Nat.eqb i j then ks else bucket i r
+  end.
+Fixpoint bucket_add (i : nat) (k : nodekey) (l : list (nat * list nodekey)) : list (nat * list nodekey) :=
+  match l with
+  | [] => [(i, [k])]
+  | (j, ks) :: r => if Nat.eqb i j then (j, k :: ks) :: r else (j, ks) :: bucket_add i k r
+  end.
+Definition node_seen (k : nodekey) (mm : memo) : bool := existsb (nk_eqb k) (bucket (nk_win k) (m_node mm)).
+Definition add_node (k : nodekey) (mm : memo) : memo := mkMemo (m_win mm) (bucket_add (nk_win k) k (m_node mm)).
 
 Definition key_of (i : nat) (s : msys) (obs : list smsg) : nodekey :=
   mkNK i (length obs) (length (y_p0 s)) (length (y_p2 s)) (y_p1 s) (y_merge s).
@@ -175,7 +188,7 @@ Fixpoint search (depth : nat) (budget : Z) (mm : memo) (i : nat) (strict : bool)
       if budget <=? 0 then fail_with 0 mm else
       if y_dead s then fail_with (budget - 1) mm else
       let key := key_of i s obs in
-      if existsb (nk_eqb key) (m_node mm) then fail_with (budget - 1) mm else
+      if node_seen key mm then fail_with (budget - 1) mm else
       let here : sres :=
         if (if strict then quietb s else settled s) && match obs with [] => true | _ => false end
         then k s (budget - 1) mm
